@@ -143,10 +143,13 @@ Fixpoint read_loop (fuel : nat) (k size : Z) : MX Z :=
 Definition tls_read (k size : Z) : MX Z :=
   ok <- handle_last_error k ;; if ok then read_loop STEPS_MAX k size else ret 0.
 
-(* returns what remains unsent *)
-Fixpoint write_loop (fuel : nat) (k remaining : Z) : MX Z :=
+(* returns what remains unsent. The C++ loop counts CONSECUTIVE engine calls without progress (handshakeStepsMax, reset to
+   the start whenever a record went out: i = 0); [hs] is the number of such continuations still allowed. The loop itself is
+   bounded by the data only, so the recursion is on [fuel] = the length of the engine script + 1: every round consumes one
+   engine event, the fuel cannot run out before the script does (Bad 140 is unreachable, see write_loop_fuel_enough). *)
+Fixpoint write_loop (fuel : nat) (hs : nat) (k remaining : Z) : MX Z :=
   match fuel with
-  | O => ret remaining
+  | O => bad 140
   | S f =>
       if remaining =? 0 then ret remaining else
       t <- get_tls k ;;
@@ -158,16 +161,16 @@ Fixpoint write_loop (fuel : nat) (k remaining : Z) : MX Z :=
         upd_tls k (fun t => t <| t_pend := remaining |>) ;;;
         ok <- handle_result k err ;;
         if negb ok then ret remaining
-        else match f with O => stuck 42 | _ => write_loop f k remaining end
+        else match hs with O => stuck 42 | S h => write_loop f h k remaining end     (* assert(i < handshakeStepsMax) *)
       else
         upd_tls k (fun t => t <| t_pend := -1 |>) ;;;
         if remaining <? res then stuck 43                        (* assert(written <= remaining.size()) *)
-        else match f with O => stuck 42 | _ => write_loop f k (remaining - res) end
+        else write_loop f (pred STEPS_MAX) k (remaining - res)
   end.
 
 Definition tls_write (k size : Z) : MX Z :=
   ok <- handle_last_error k ;;
-  if ok then rem <- write_loop STEPS_MAX k size ;; ret (size - rem) else ret 0.
+  if ok then x <- get_ext ;; rem <- write_loop (S (length (x_eng x))) (pred STEPS_MAX) k size ;; ret (size - rem) else ret 0.
 
 (* ---- the SocketImpl interface ------------------------------------------------------------------------------------ *)
 (* Receive(data, size, timeout) *)
